@@ -328,6 +328,24 @@ func twoTemplates(c *CheckRun, pool int) []*Scenario {
 			}
 		}
 	}
+	if pool == 0 {
+		// two collation trees built with the default options, and a collation tree next to a byte-string tree: apart
+		// from the node pool nothing may be shared — in particular not the (stateful) collator
+		for _, kb := range []int{14, kindAlphaB} {
+			kb2 := cSpec(1, 2)
+			kb5 := cSpec(5, 3)
+			if kb != 14 {
+				kb2, kb5 = aSpec(0, 1), aSpec(0, 2)
+			}
+			ops := [][3]int{{0, opInsert, cSpec(0, 2)}, {1, opInsert, kb2}, {0, opInsert, cSpec(2, 2)}, {1, opInsert, kb5}, {0, opDelete, cSpec(0, 2)}, {1, opDelete, kb2}}
+			p := []int{pool, 14, kb, ckMap, len(ops)}
+			for _, o := range ops {
+				p = append(p, o[0], o[1], o[2])
+			}
+			p = append(p, cSpec(2, 2), kb5)
+			out = append(out, &Scenario{Harness: "hTwo", Params: p, MaxSteps: 300_000_000, Label: fmt.Sprintf("F-two collation tree next to a %s tree", kindNames[kb])})
+		}
+	}
 	return out
 }
 
@@ -345,6 +363,13 @@ func aliasScenarios(c *CheckRun) []*Scenario {
 			}
 		}
 	}
+	// Range with an empty end bound: one stored key, start below / above it (the bounds are swapped in the second case)
+	for n := 0; n <= maxLen; n++ {
+		for sp := 1; sp <= maxSpare; sp++ {
+			out = append(out, simple("hAlias", "byte-string []byte: Range with an empty end, spare capacity", 0, 0, 2, 0, 1, 1, 5, n, sp))
+		}
+	}
+	out = append(out, simple("hAlias", "byte-string []byte: Range with an empty end over a shared stem", 0, 0, 3, 0, aSpec(3, 1), 0, 0, aSpec(3, 1), 0, 5, aSpec(3, 1), 2))
 	// two inserts then scribble (retention), every length pair and spare capacity
 	for n1 := 0; n1 <= maxLen; n1++ {
 		for n2 := 0; n2 <= maxLen; n2++ {
